@@ -228,24 +228,46 @@ def sub_contact(ctx, st):
             raise vlib.MachineryError("contact driver died (rc=%d) in scenario %s:\n%s" % (r.returncode, bad[:1], r.stderr[-3000:]))
         return p, shard
 
+    def collect(outs):
+        # keep the scenarios whose positive controls were all observed (CEnd.ok); the others are not judged
+        kept, skipped = [], []
+        for p, shard in outs:
+            cur, k = [], -1
+            for line in open(p):
+                if '"op":"Init"' in line:
+                    cur, k = [], k + 1
+                cur.append(line)
+                if '"op":"CEnd"' in line:
+                    e = json.loads(line)
+                    if e["ok"]:
+                        cur.insert(2, json.dumps({"op": "CNote", "what": "scenario", "scenario": shard[k]}, separators=(",", ":")) + "\n")
+                        kept.append(cur)
+                    else:
+                        skipped.append({"scenario": shard[k], "missing": e["missing"]})
+                    cur = []
+        return kept, skipped
+
     with ThreadPoolExecutor(max_workers=nproc) as ex:
         outs = [f.result() for f in [ex.submit(work, i, sh) for i, sh in enumerate(shards) if sh]]
-    # keep the scenarios whose positive controls were all observed (CEnd.ok); the others are not judged
-    kept, skipped = [], []
-    for p, shard in outs:
-        cur, k = [], -1
-        for line in open(p):
-            if '"op":"Init"' in line:
-                cur, k = [], k + 1
-            cur.append(line)
-            if '"op":"CEnd"' in line:
-                e = json.loads(line)
-                if e["ok"]:
-                    cur.insert(2, json.dumps({"op": "CNote", "what": "scenario", "scenario": shard[k]}, separators=(",", ":")) + "\n")
-                    kept.append(cur)
-                else:
-                    skipped.append({"scenario": shard[k], "missing": e["missing"]})
-                cur = []
+    kept, skipped = collect(outs)
+    # a scenario whose positive controls did not show up (loaded machine: a control dial / announce later than its deadline) is
+    # run again, alone (one process, nothing else of this check running beside it), up to two times; what comes up is judged
+    # like the rest.  Without this a scenario kind that occurs once in the plan (bandup, banq, yourip ... in the quick tier)
+    # silently drops out of the run.
+    first_skipped = list(skipped)
+    for attempt in (1, 2):
+        if not skipped:
+            break
+        again = [x["scenario"] for x in skipped]
+        vlib.log("contact: %d scenario(s) without their positive controls, run again alone (attempt %d): %s" % (len(again), attempt, again[:6]))
+        k2, skipped = collect([work(100 + attempt, again)])
+        kept += k2
+    ctx.extra["contact_scenarios_rerun"] = {"first_pass_not_judged": first_skipped[:10], "still_not_judged": [x["scenario"] for x in skipped][:10]}
+    kinds_plan = {x.split(":")[0] for x in plan}
+    kinds_judged = {json.loads(l)["scenario"].split(":")[0] for sc in kept for l in sc[2:3]}
+    if kinds_plan - kinds_judged:
+        vlib.log("note: contact scenario kinds not judged in this run: %s" % sorted(kinds_plan - kinds_judged))
+    ctx.extra["contact_kinds_not_judged"] = sorted(kinds_plan - kinds_judged)
     ctx.extra["contact_scenarios"] = {"run": len(plan), "judged": len(kept), "not_judged": skipped[:10]}
     if len(kept) * 3 < len(plan) * 2:
         raise vlib.MachineryError("contact scenarios: only %d of %d came up (positive controls missing): %s" % (len(kept), len(plan), skipped[:5]))
